@@ -388,7 +388,7 @@ def write_evidence(prop, tier, seed, cfgp, all_res, metas, wall, nviol, problems
     obligations = sum((r["props"].get("total_properties") or 0) for r in all_res)
     discharged = sum((r["props"].get("passed") or 0) + (r["props"].get("satisfied") or 0) for r in all_res)
     unreachable = sum((r["props"].get("unreachable") or 0) for r in all_res)
-    nontrivial = [r for r in all_res if r["status"] == "Success" and not r["unsat_covers"]]
+    nontrivial = [r for r in all_res if r["status"] == "Success" and not [c for c in r["unsat_covers"] if "info:" not in (c or "")]]
     fns = sorted({f for r in all_res for f in r["repo_functions"]})
     solver_s = sum((r["stats"] or {}).get("runtime_decision_procedure_s", 0) or 0 for r in all_res)
     symex_s = sum((r["stats"] or {}).get("runtime_symex_s", 0) or 0 for r in all_res)
